@@ -73,6 +73,15 @@ func Param(name string, def int) int { return def }
 // Havoc fills *ptr (any pointer) with an arbitrary value of its type (engine only).
 func Havoc(ptr interface{}, name string) {}
 
+// Consumed declares that a concurrent consumer reads channel ch (as the user of Handler.Listen does): sends on the full
+// channel hand the oldest element to that consumer instead of blocking (engine); natively a goroutine drains it.
+func Consumed(ch interface{}) {}
+
+// HavocInto overwrites *ptr (a pointer to a pre-shaped message/content struct) with what a decoder could leave there:
+// exported fields arbitrary, unexported fields kept, pre-shaped interface fields keep their dynamic type, pre-shaped
+// pointers are kept when the key is absent (engine only).
+func HavocInto(ptr interface{}, name string) {}
+
 // Snapshot returns an opaque deep snapshot of x usable with Same (engine only).
 func Snapshot(x interface{}) interface{} { return nil }
 
